@@ -25,7 +25,7 @@ RULE_MORE = "input directory names with dots, a leading dot or blanks (the defau
 ASSUMPTIONS = ["file names end in lower-case .cmake", "how inner path components are joined is not constrained, only their order"]
 BUDGET = {"quick": {"shards": 8, "examples": 100}, "thorough": {"shards": 16, "examples": 1500}}
 
-SEPS = [".", ".", "::", "/", "-", "->", "_"]
+SEPS = [".", ".", "::", "/", "-", "->", "_", "}{", "%s"]
 HEADER_POOL = list("#*=-_~!&@^+:'\"`$%<>")
 
 
@@ -38,7 +38,7 @@ def _module():
 
 def _tree(depth):
     # a backslash is an ordinary character in POSIX file names
-    names = ["util\\str.cmake"] + [n for n in T.CMAKE_NAMES]
+    names = ["util\\str.cmake", "utils .cmake", " lead.cmake", "utils.cmake"] + [n for n in T.CMAKE_NAMES]
     files = st.dictionaries(st.sampled_from(names), _module(), max_size=3)
     if depth <= 0:
         return st.fixed_dictionaries({"files": files, "dirs": st.just({})})
@@ -53,7 +53,7 @@ def strategy(tier):
         "tree": _tree(depth),
         "mode": st.sampled_from(["dir-abs", "dir-abs", "dir-rel", "dir-dot", "dir-dotslash", "file-abs", "file-rel", "dir-after-other",
                                   "file-after-dir", "dir-link"]),
-        "prefix": st.sampled_from([None, None, ["-p", "pfx"], ["-p", "My.Proj"], ["cfg", "cfgpfx"], ["-p", "p q"], ["-p", "préfix"]]),
+        "prefix": st.sampled_from([None, None, ["-p", "pfx"], ["-p", "My.Proj"], ["cfg", "cfgpfx"], ["-p", "p q"], ["-p", "préfix"], ["-p", "core{{v2}}"], ["-p", "${PROJECT_NAME}"], ["cfg", "{0}"]]),
         "sep": st.sampled_from(SEPS),
         "ext_titles": st.booleans(),
         "ext_modules": st.booleans(),
